@@ -2834,6 +2834,9 @@ func (c *Conn) translateHandshakeCtxError(err error) error {
 	return fmt.Errorf("handshake failed: %w", err)
 }
 
+// closeNotifyTimeout bounds the write of the close_notify alert in Close.
+const closeNotifyTimeout = 5 * time.Second
+
 func (c *Conn) close(byUser bool) error {
 	c.closeLock.Lock()
 	cancelHandshaker := c.cancelHandshaker
@@ -2857,8 +2860,12 @@ func (c *Conn) close(byUser bool) error {
 
 	if c.isHandshakeCompletedSuccessfully() && byUser {
 		// Discard error from notify() to return non-error on user Close()
-		// even if the underlying connection is already closed.
-		_ = c.notify(context.Background(), alert.Warning, alert.CloseNotify)
+		// even if the underlying connection is already closed. close_notify is
+		// best effort: a transport whose send side is blocked must not keep
+		// Close from returning (crypto/tls bounds it the same way).
+		notifyCtx, cancel := context.WithTimeout(context.Background(), closeNotifyTimeout)
+		_ = c.notify(notifyCtx, alert.Warning, alert.CloseNotify)
+		cancel()
 	}
 
 	return c.nextConn.Close()
